@@ -150,6 +150,11 @@ func checkC09(p *Prog, r *Report) {
 				case *ssa.Call:
 					name := calleeName(&x.Call)
 					src := isNondetSource(name)
+					// an ante decorator asking for the execution mode is the SDK's own idiom (mempool-only fee and rate checks): block
+					// execution always sees the same answer on every node, and what the mempool run writes is discarded
+					if src && fn.Name() == "AnteHandle" && strings.HasPrefix(name, "(sdk/types.Context).") {
+						src = false
+					}
 					if name == "fmt.Sprintf" || name == "fmt.Errorf" {
 						if c, ok := x.Call.Args[0].(*ssa.Const); ok && c.Value != nil && strings.Contains(c.Value.ExactString(), "%p") {
 							src = true
@@ -313,6 +318,7 @@ func checkC09(p *Prog, r *Report) {
 	// D2b no binary encoding of map-carrying messages (unordered.go)
 	checkNoUnorderedEncoding(p, r, kp, scope)
 
+	checkMapsNotMutatedWhileRanged(p, r, kp)
 	// D2 map ranges
 	nMap := 0
 	for _, fn := range scope {
@@ -410,6 +416,23 @@ func mapLoopOrderSensitive(p *Prog, fn *ssa.Function, rg *ssa.Range) string {
 			return fmt.Sprintf("a value (%s) is carried across iterations", phi.Comment)
 		}
 	}
+	// a return from inside the body (its block is dominated by the body's entry and never comes back to the header) that hands back
+	// something computed from the entry it stopped at: with several qualifying entries the answer depends on map order
+	if len(header.Succs) == 2 {
+		body := header.Succs[0]
+		for _, b := range fn.Blocks {
+			if b == header || !(b == body || body.Dominates(b)) || len(b.Instrs) == 0 {
+				continue
+			}
+			if ret, ok := b.Instrs[len(b.Instrs)-1].(*ssa.Return); ok {
+				for _, rv := range ret.Results {
+					if derivesFromNext(rv, 0) {
+						return "the walk returns a value computed from the entry it stopped at (at " + p.Pos(ret.Pos()) + "): with several qualifying entries the result depends on map order"
+					}
+				}
+			}
+		}
+	}
 	// a walk that does something per entry and can stop early without failing (break, or a non-error return) has processed the
 	// entries that happened to come first in this process's map order, and only those
 	if at := earlyLoopExit(header); at != nil {
@@ -447,7 +470,14 @@ func mapLoopOrderSensitive(p *Prog, fn *ssa.Function, rg *ssa.Range) string {
 					return "a package-level variable is assigned per entry at " + p.Pos(x.Pos())
 				}
 			case *ssa.Return:
-				// early return with a value that depends on which entry was hit first is fine for errors (validation)
+				// an early return is fine when what is returned does not say WHICH entry was hit first (a fixed error, false);
+				// returning something computed from the iteration's key or value hands back the entry that came first in this
+				// process's map order (two bad entries: two different answers)
+				for _, rv := range x.Results {
+					if derivesFromNext(rv, 0) {
+						return "the walk returns a value computed from the entry it stopped at (at " + p.Pos(x.Pos()) + "): with several qualifying entries the result depends on map order"
+					}
+				}
 			}
 		}
 	}
@@ -636,4 +666,141 @@ func checkProcessWideState(p *Prog, r *Report, kp func(string, string) string, s
 			r.OK(kp("STATE", "process-wide-registries-untouched"), "block-processing code registers no error code and writes into no package-level variable of another module", "x/*, app/*", fmt.Sprintf("%d functions in scope", len(scope)))
 		}
 	}
+}
+
+// derivesFromNext: v is computed from the key or value of a map iteration step (through calls, conversions, boxing, phis).
+func derivesFromNext(v ssa.Value, depth int) bool {
+	if depth > 6 {
+		return false
+	}
+	switch x := v.(type) {
+	case *ssa.Extract:
+		if _, ok := x.Tuple.(*ssa.Next); ok {
+			return x.Index > 0
+		}
+		return derivesFromNext(x.Tuple, depth+1)
+	case *ssa.Call:
+		for _, a := range x.Call.Args {
+			if derivesFromNext(a, depth+1) {
+				return true
+			}
+		}
+	case *ssa.MakeInterface:
+		return derivesFromNext(x.X, depth+1)
+	case *ssa.ChangeInterface:
+		return derivesFromNext(x.X, depth+1)
+	case *ssa.ChangeType:
+		return derivesFromNext(x.X, depth+1)
+	case *ssa.Convert:
+		return derivesFromNext(x.X, depth+1)
+	case *ssa.Slice:
+		return derivesFromNext(x.X, depth+1)
+	case *ssa.Phi:
+		for _, e := range x.Edges {
+			if e != ssa.Value(x) && derivesFromNext(e, depth+1) {
+				return true
+			}
+		}
+	case *ssa.UnOp:
+		if al, ok := x.X.(*ssa.Alloc); ok && al.Referrers() != nil {
+			// a variadic argument array or a spilled local holding the value
+			for _, rf := range *al.Referrers() {
+				switch y := rf.(type) {
+				case *ssa.Store:
+					if y.Addr == ssa.Value(al) && derivesFromNext(y.Val, depth+1) {
+						return true
+					}
+				case *ssa.IndexAddr:
+					if y.Referrers() != nil {
+						for _, r2 := range *y.Referrers() {
+							if st, ok := r2.(*ssa.Store); ok && derivesFromNext(st.Val, depth+1) {
+								return true
+							}
+						}
+					}
+				}
+			}
+		}
+		return derivesFromNext(x.X, depth+1)
+	case *ssa.Alloc:
+		if x.Referrers() != nil {
+			for _, rf := range *x.Referrers() {
+				if ia, ok := rf.(*ssa.IndexAddr); ok && ia.Referrers() != nil {
+					for _, r2 := range *ia.Referrers() {
+						if st, ok := r2.(*ssa.Store); ok && derivesFromNext(st.Val, depth+1) {
+							return true
+						}
+					}
+				}
+			}
+		}
+	}
+	return false
+}
+
+// checkMapsNotMutatedWhileRanged (C09): no module function inserts into (or deletes other entries from) the map it is ranging
+// over: the Go specification leaves open whether an entry added during the walk is visited, so the result differs from run to run.
+func checkMapsNotMutatedWhileRanged(p *Prog, r *Report, kp func(string, string) string) {
+	rule := "a map is not inserted into while it is ranged over (whether the new entry is visited is unspecified: the outcome differs between processes)"
+	n, nBad := 0, 0
+	for _, fn := range p.ModFuncs {
+		if fn.Blocks == nil || p.IsGenerated(fn) || InPkgs(fn, "types/testsuite") {
+			continue
+		}
+		for _, b := range fn.Blocks {
+			for _, in := range b.Instrs {
+				rg, ok := in.(*ssa.Range)
+				if !ok {
+					continue
+				}
+				if _, isMap := rg.X.Type().Underlying().(*types.Map); !isMap {
+					continue
+				}
+				n++
+				var header *ssa.BasicBlock
+				var next *ssa.Next
+				if refs := rg.Referrers(); refs != nil {
+					for _, rf := range *refs {
+						if nx, ok := rf.(*ssa.Next); ok {
+							header, next = nx.Block(), nx
+						}
+					}
+				}
+				if header == nil {
+					continue
+				}
+				for _, lb := range fn.Blocks {
+					if !(header.Dominates(lb) && lb != header && reaches(lb, header)) {
+						continue
+					}
+					for _, li := range lb.Instrs {
+						mu, ok := li.(*ssa.MapUpdate)
+						if !ok || !sameMapValue(mu.Map, rg.X) {
+							continue
+						}
+						// assigning to the entry under the iteration key is defined behaviour
+						if ex, isEx := mu.Key.(*ssa.Extract); isEx && ex.Tuple == ssa.Value(next) && ex.Index == 1 {
+							continue
+						}
+						nBad++
+						r.Fail(kp("ORDER", FuncName(fn)+"#map-mutated-while-ranged@"+blockTag(fn, lb)), rule, p.Pos(mu.Pos()),
+							fmt.Sprintf("%s inserts into the map it is ranging over under a key other than the iteration key: new entries may or may not be visited (and converted again), differently on every run", FuncName(fn)))
+					}
+				}
+			}
+		}
+	}
+	if nBad == 0 {
+		r.OK(kp("ORDER", "map-mutated-while-ranged#none"), rule, "module code", fmt.Sprintf("%d ranges over maps, none inserts into the map it walks", n))
+	}
+}
+
+func sameMapValue(a, b ssa.Value) bool {
+	if a == b {
+		return true
+	}
+	// two loads of the same variable
+	ua, ok1 := a.(*ssa.UnOp)
+	ub, ok2 := b.(*ssa.UnOp)
+	return ok1 && ok2 && ua.X == ub.X
 }
